@@ -113,7 +113,7 @@ def gen(rng, tier, idx):
     while scn.get("family") == "p2sh-plain":
         # the P2SH form is a property of the whole script: splicing operations into it changes what it is
         scn = workloads.session_scenario(rng, purpose="exec", allow_spend=False)
-    scn["observe"] = True
+    scn["observe"] = rng.chance(50)      # observers quadruple the delivered lines; the other half relies on the probe alone
     if rng.chance(30) and len(scn["script"]) // 2 <= 3000 and not any(o.startswith("--pretend") for o in scn["opts"]):
         # the same script under the segwit v0 / tapscript rules: executed as the witness script / tap leaf of a
         # signature-free spend built by the harness (both for the session and for the spliced reference)
